@@ -9,7 +9,7 @@ OUT=$1; BATCH=${2:-8}
 export PATH=/opt/veriftools/go1.26.8/bin:$PATH GOTOOLCHAIN=local GOFLAGS=-mod=mod GOPROXY=off GOSUMDB=off GOWORK=off
 mkdir -p "$OUT"
 cd /verif/checker
-grep -oh 'MustFunc("[^"]*")\|MustField("[^"]*", "[^"]*")\|MustNamed("[^"]*")\|MethodOf([a-zA-Z]*, "[^"]*")\|p\.Func("[^"]*")\|p\.Iface("[^"]*")\|p\.Field("[^"]*", "[^"]*")\|p\.Named("[^"]*")\|N([^)]*) [!=]= "[^"]*"\|FuncName([a-z]*) == "[^"]*"\|case "[^"]*"' vg/c*.go vg/env*.go vg/effects.go vg/load.go vg/ssau.go vg/contenttype.go \
+grep -oh 'MustFunc("[^"]*")\|MustField("[^"]*", "[^"]*")\|MustNamed("[^"]*")\|MethodOf([a-zA-Z]*, "[^"]*")\|p\.Func("[^"]*")\|p\.Iface("[^"]*")\|p\.Field("[^"]*", "[^"]*")\|p\.Named("[^"]*")\|N([^)]*) [!=]= "[^"]*"\|FuncName([a-z]*) == "[^"]*"\|case "[^"]*"' vg/c*.go vg/env*.go vg/effects.go vg/load.go vg/ssau.go vg/contenttype.go vg/maporder.go \
  | grep -o '"[^"]*"' | tr -d '"' | sed 's/^(\*\?[A-Za-z]*)\.//' | sort -u > "$OUT/mentioned.txt"
 python3 - "$OUT" <<'PY'
 import json,sys
